@@ -98,15 +98,91 @@ def run_cli(root: Path, strategy: Optional[str] = "client", config: Optional[Dic
                      stdout=out, traceback=tb, package_dir=pkg_dir, reported_files=reported, config=config)
 
 
-def decoy_generations(root: Path, sdl: str, queries: Optional[str], other: Optional[Tuple[str, str]] = None, config: Optional[Dict[str, Any]] = None) -> int:
-    """History for the generation that follows: in THIS interpreter, generate the same inputs under the default configuration (nothing configured: no scalars,
-    no plugins, default names) and - if given - another project's inputs, each in its own directory under root/_decoys. Outcomes are ignored: only what
-    the generator may have kept in module-level or class-level state matters. -> number of decoy generations that ran to completion."""
+def reduced_sdl(sdl: str, thin: bool = False) -> Optional[str]:
+    """A smaller schema sharing type names with the given one: every root type keeps only its first field, and only what is reachable from there stays.
+    (A project generated earlier in the same interpreter that knows *some* of the later project's types, under the same names.)  None if that is not a valid schema."""
+    from graphql import build_schema, parse, print_ast, validate_schema
+    from graphql.language import ast as gast
+    try:
+        doc = parse(sdl)
+        schema = build_schema(sdl)
+        roots = {t.name for t in (schema.query_type, schema.mutation_type, schema.subscription_type) if t is not None}
+        defs = {d.name.value: d for d in doc.definitions if isinstance(d, gast.TypeDefinitionNode)}
+        for r in roots:
+            d = defs[r]
+            d.fields = tuple(d.fields[:1])
+        if thin:
+            # ... and every other object / interface type keeps its first field plus what its (equally thinned) interfaces demand: the same type NAMES with fewer members
+            kept: Dict[str, set] = {}
+
+            def kept_of(name: str, seen=()) -> set:
+                if name in kept:
+                    return kept[name]
+                d_ = defs.get(name)
+                if d_ is None or name in seen or not isinstance(d_, (gast.ObjectTypeDefinitionNode, gast.InterfaceTypeDefinitionNode)) or not d_.fields:
+                    return set()
+                ks = {d_.fields[0].name.value}
+                for i_ in d_.interfaces or ():
+                    ks |= kept_of(i_.name.value, tuple(seen) + (name,))
+                kept[name] = ks
+                return ks
+            for n_, d_ in defs.items():
+                if n_ not in roots and isinstance(d_, (gast.ObjectTypeDefinitionNode, gast.InterfaceTypeDefinitionNode)):
+                    ks = kept_of(n_)
+                    d_.fields = tuple(f_ for f_ in d_.fields if f_.name.value in ks)
+
+        def names_in(node) -> List[str]:
+            out: List[str] = []
+            stack = [node]
+            while stack:
+                n = stack.pop()
+                if isinstance(n, gast.NamedTypeNode):
+                    out.append(n.name.value)
+                for k in getattr(n, "keys", ()):
+                    v = getattr(n, k, None)
+                    if isinstance(v, gast.Node):
+                        stack.append(v)
+                    elif isinstance(v, (list, tuple)):
+                        stack.extend(x for x in v if isinstance(x, gast.Node))
+            return out
+        keep = set(roots)
+        todo = list(roots)
+        while todo:
+            for n in names_in(defs[todo.pop()]):
+                if n in defs and n not in keep:
+                    keep.add(n)
+                    todo.append(n)
+        parts = [print_ast(d) for d in doc.definitions if not isinstance(d, gast.TypeDefinitionNode) or d.name.value in keep]
+        text = "\n\n".join(parts) + "\n"
+        if validate_schema(build_schema(text)) or (keep == set(defs) and not thin):
+            return None
+        return text
+    except Exception:  # noqa: BLE001
+        return None
+
+
+DECOY_KINDS = ["thin", "same", "part", "all"]
+
+
+def decoy_generations(root: Path, sdl: str, queries: Optional[str], other: Optional[Tuple[str, str]] = None, config: Optional[Dict[str, Any]] = None,
+                      kind: str = "all") -> int:
+    """History for the generation that follows: in THIS interpreter, generate something else first, each in its own directory under root/_decoys -
+    kind "same": the same inputs under the given (default: empty) configuration; "part": a part of the schema (same type names, fewer types); "thin": the same type
+    names with fewer fields; "all": all of these (and, if given, another project's inputs).  One kind at a time matters: a decoy that already knows the whole schema
+    can hide what a decoy knowing a part of it would show.  Outcomes are ignored: only what the generator may have kept in module-level or class-level state
+    matters. -> number of decoy generations that ran to completion."""
     import warnings
     done = 0
-    jobs = [("same_inputs_default_config", sdl, queries)]
-    if other is not None:
-        jobs.append(("other_inputs_default_config", other[0], other[1]))
+    jobs = []
+    if kind in ("same", "all"):
+        jobs.append(("same_inputs", sdl, queries))
+    if other is not None and kind == "all":
+        jobs.append(("other_inputs", other[0], other[1]))
+    for label, thin in (("part_of_the_schema_same_names", False), ("same_type_names_fewer_fields", True)):
+        if kind == "all" or kind == ("thin" if thin else "part"):
+            smaller = reduced_sdl(sdl, thin=thin)
+            if smaller is not None:
+                jobs.append((label, smaller, "query VfDecoy { __typename }"))
     for name, sdl_, queries_ in jobs:
         d = root / "_decoys" / name
         d.mkdir(parents=True, exist_ok=True)
